@@ -3,6 +3,8 @@
 //! usage: dbg-harness <property> <seed> <quick|thorough> <shard> <nshards> <outfile>
 mod c11;
 mod c12;
+mod gen;
+mod seqs;
 mod kmers;
 mod val;
 
@@ -39,6 +41,11 @@ fn main() {
         "C10" => kmers::c10(&mut out, &mut rng, &tier),
         "C11" => c11::c11(&mut out, &mut rng, &tier),
         "C12" => c12::c12(&mut out, &mut rng, &tier),
+        "C13" => seqs::c13(&mut out, &mut rng, &tier),
+        "C14" => seqs::c14(&mut out, &mut rng, &tier),
+        "C15" => seqs::c15(&mut out, &mut rng, &tier),
+        "C17" => seqs::c17(&mut out, &mut rng, &tier),
+        "C18" => seqs::c18(&mut out, &mut rng, &tier),
         _ => {
             eprintln!("unknown property {}", prop);
             std::process::exit(2);
